@@ -274,13 +274,24 @@ func (Dict) getBucket() fmt.Stringer {
 }
 
 func (d Dict) Count() int {
-	return d.m.Count()
+	count := 0
+	for i := d.m.Range(); i.Next(); {
+		if mv, is := i.Value().(multipleValues); is {
+			count += frozen.Set[Value](mv).Count()
+		} else {
+			count++
+		}
+	}
+	return count
 }
 
 func (d Dict) Has(v Value) bool {
 	if key, value, matched := DictTupleMatcher()(v); matched {
 		if v, has := d.m.Get(key); has {
-			if dv, ok := v.(Value); ok {
+			switch dv := v.(type) {
+			case multipleValues:
+				return frozen.Set[Value](dv).Has(value)
+			case Value:
 				return value.Equal(dv)
 			}
 		}
@@ -310,12 +321,19 @@ func (d Dict) With(v Value) Set {
 func (d Dict) Without(v Value) Set {
 	if key, value, matched := DictTupleMatcher()(v); matched {
 		if v, has := d.m.Get(key); has {
-			if dv, ok := v.(Value); ok && value.Equal(dv) {
-				m := d.m.Without(key)
-				if m.IsEmpty() {
-					return None
+			switch dv := v.(type) {
+			case multipleValues:
+				if set := frozen.Set[Value](dv); set.Has(value) {
+					return Dict{m: d.m.With(key, newMultipleValues(set.Without(value).Elements()...))}
 				}
-				return Dict{m: m}
+			case Value:
+				if value.Equal(dv) {
+					m := d.m.Without(key)
+					if m.IsEmpty() {
+						return None
+					}
+					return Dict{m: m}
+				}
 			}
 		}
 	}
@@ -335,7 +353,7 @@ func (d Dict) Map(f func(v Value) (Value, error)) (Set, error) {
 }
 
 func (d Dict) Where(p func(v Value) (bool, error)) (Set, error) {
-	var mb frozen.MapBuilder[Value, any]
+	var entries []DictEntryTuple
 	for e := d.Enumerator(); e.MoveNext(); {
 		t := e.Current().(DictEntryTuple)
 		match, err := p(t)
@@ -343,14 +361,10 @@ func (d Dict) Where(p func(v Value) (bool, error)) (Set, error) {
 			return nil, err
 		}
 		if match {
-			mb.Put(t.at, t.value)
+			entries = append(entries, t)
 		}
 	}
-	m := mb.Finish()
-	if m.IsEmpty() {
-		return None, nil
-	}
-	return Dict{m: m}, nil
+	return NewDict(true, entries...)
 }
 
 func (d Dict) CallAll(_ context.Context, arg Value, b SetBuilder) error {
